@@ -32,6 +32,9 @@ type Emitter struct {
 	// as free variables: reduce / muladd atoms as (mod <exact Def> p), inverse atoms as the
 	// uninterpreted function invGL of their operand.
 	DefMode bool
+	// Abstract: terms for which it returns true are printed as fresh unconstrained constants
+	// (used by dependency queries to cut away the part of a DAG that cannot matter).
+	Abstract func(*Term) bool
 	AtomsSeen   []*Term
 }
 
@@ -39,9 +42,9 @@ type Emitter struct {
 // declarations of em: atoms already declared by em are not declared again, every node defined by
 // the fork gets the given name prefix. Used to print a second copy of a DAG under a substitution.
 func (em *Emitter) Fork(prefix string, subst map[*Term]*Term) *Emitter {
-	f := &Emitter{names: map[*Term]string{}, ufs: em.ufs, DefMode: em.DefMode, Lift: em.Lift, Unfold: em.Unfold, Subst: subst, NoAtomRange: em.NoAtomRange, Refined: em.Refined, Prefix: prefix}
+	f := &Emitter{names: map[*Term]string{}, ufs: em.ufs, DefMode: em.DefMode, Abstract: em.Abstract, Lift: em.Lift, Unfold: em.Unfold, Subst: subst, NoAtomRange: em.NoAtomRange, Refined: em.Refined, Prefix: prefix}
 	for t, n := range em.names {
-		if t.Op == OpConst || (t.Op == OpAtom && !(em.DefMode && (t.Def != nil || (t.Kind == "inverse" && len(t.Aux) == 1)))) {
+		if t.Op == OpConst || (t.Op == OpAtom && !(em.DefMode && (t.Def != nil || (t.Kind == "inverse" && len(t.Aux) == 1)))) || (em.Abstract != nil && em.Abstract(t)) {
 			f.names[t] = n
 		}
 	}
@@ -92,6 +95,9 @@ func (em *Emitter) resolve(t *Term) *Term {
 }
 
 func (em *Emitter) kids(cur *Term) []*Term {
+	if em.Abstract != nil && cur.Op != OpConst && em.Abstract(cur) {
+		return nil
+	}
 	if cur.Op == OpAtom && em.DefMode {
 		if cur.Def != nil {
 			return []*Term{cur.Def}
@@ -145,6 +151,12 @@ func (em *Emitter) Ref(t *Term) string {
 }
 
 func (em *Emitter) define(t *Term, kids []*Term) {
+	if em.Abstract != nil && t.Op != OpConst && em.Abstract(t) {
+		name := fmt.Sprintf("ab%d", t.ID)
+		fmt.Fprintf(&em.sb, "(declare-const %s Int)\n", name)
+		em.names[t] = name
+		return
+	}
 	switch t.Op {
 	case OpConst:
 		if em.Lift {
@@ -289,4 +301,56 @@ func SortedAtomNames(ts []*Term) []string {
 	}
 	sort.Strings(out)
 	return out
+}
+
+// DependsOn returns the set of terms below root (following Def / inverse operands as in DefMode)
+// whose value can depend on target.
+func DependsOn(root, target *Term) map[*Term]bool {
+	dep := map[*Term]bool{}
+	seen := map[*Term]bool{}
+	kids := func(x *Term) []*Term {
+		if x.Op == OpAtom {
+			if x.Def != nil {
+				return []*Term{x.Def}
+			}
+			if x.Kind == "inverse" && len(x.Aux) == 1 {
+				return x.Aux
+			}
+			return nil
+		}
+		return x.Args
+	}
+	type fr struct {
+		t *Term
+		i int
+	}
+	st := []fr{{root, 0}}
+	for len(st) > 0 {
+		f := &st[len(st)-1]
+		if seen[f.t] {
+			st = st[:len(st)-1]
+			continue
+		}
+		ks := kids(f.t)
+		if f.i < len(ks) {
+			k := ks[f.i]
+			f.i++
+			if !seen[k] {
+				st = append(st, fr{k, 0})
+			}
+			continue
+		}
+		seen[f.t] = true
+		d := f.t == target
+		for _, k := range ks {
+			if dep[k] {
+				d = true
+			}
+		}
+		if d {
+			dep[f.t] = true
+		}
+		st = st[:len(st)-1]
+	}
+	return dep
 }
